@@ -113,6 +113,7 @@ type valObs struct {
 }
 
 func validateReal(schema *ast.Schema, text string) (o valObs) {
+	defer guard("parser.ParseQuery + validator.Validate", text)()
 	defer func() {
 		if r := recover(); r != nil {
 			o.Crash = fmt.Sprintf("panic: %v", r)
